@@ -384,6 +384,34 @@ theorem c08_returned_stable_init (grow : Nat → Nat → Nat) (before : List Pkt
   exact c08_returned_stable grow s0.1 s0.2.1 p hwf s1.1 s1.2.1 u
     (by show sdecode grow true s0.1 s0.2.1 p = (s1.1, s1.2.1, .ok u); rw [← hu]) later
 
+/-- **whole histories**: run any packet history through the repaired decoder in slice semantics and
+read every unit it returned along the way in the FINAL store — the result is exactly what the
+value-level model (the one compared with the real code) returned, packet by packet.  Refinement
+and stability in one statement. -/
+theorem c08_slice_run_final (grow : Nat → Nat → Nat) (ps : List Pkt) (st : Store) (d : SDec)
+    (hwf : d.buf.WF st) :
+    runDec (abs st d) ps
+      = (abs (srun grow true st d ps).1 (srun grow true st d ps).2.1,
+         (srun grow true st d ps).2.2.map (absRes (srun grow true st d ps).1)) := by
+  induction ps generalizing st d with
+  | nil => rfl
+  | cons p ps ih =>
+    cases hsd : sdecode grow true st d p with
+    | mk st1 x =>
+      obtain ⟨d1, r⟩ := x
+      obtain ⟨href, hwf1⟩ := c08_slice_refines grow true st d p hwf st1 d1 r hsd
+      have hih := ih st1 d1 hwf1
+      simp only [runDec, href, srun, hsd, hih, List.map_cons]
+      congr 2
+      -- the unit returned at this packet reads the same in the final store
+      cases r with
+      | ok u =>
+        simp only [absRes]
+        rw [c08_returned_stable grow st d p hwf st1 d1 u hsd ps]
+      | more => rfl
+      | nonStart => rfl
+      | err => rfl
+
 /-- (F) the code this theorem is about is the repaired one: both return paths of
 `rtpklv/decoder.go` hand the buffer over (`d.buffer = nil` occurs twice); regenerated from /repo on
 every run — if a hand-over disappears this stops compiling -/
